@@ -273,7 +273,10 @@ def analyze(ctx, want):
             ok = S.mentions(r, lambda x: x == ("sym", "state"))
             ob("C02.d", "epsilon_closure:contains-the-state-itself", ok, "returns %s" % S.fstr(r)[:100], ne.loc())
             lt = [(c, o) for c, o in p.conds if c[0] == "binop" and c[1] == "Lt"]
-            ob("C02.d", "epsilon_closure:work-list-processed-to-the-end", bool(lt) and lt[-1][1] is False and "len" in S.fstr(lt[-1][0]), "exit under %s" % [(S.fstr(c)[:60], o) for c, o in lt], ne.loc())
+            # (`while i < list.len()` or `while let Some(x) = list.get(i)`: the walk ends when the position is past the last entry)
+            gt = [(c, o) for c, o in p.conds if c[0] in ("discr", "isvar") and c[1][0] == "app" and re.search(r"<impl \[.*\]>::get(::<.*>)?$", str(c[1][1]))]
+            ok_end = (bool(lt) and lt[-1][1] is False and "len" in S.fstr(lt[-1][0])) or (bool(gt) and (gt[-1][1] == 0 if gt[-1][0][0] == "discr" else (gt[-1][0][2] == "None") == bool(gt[-1][1])))
+            ob("C02.d", "epsilon_closure:work-list-processed-to-the-end", ok_end, "exit under %s" % [(S.fstr(c)[:60], o) for c, o in lt + gt], ne.loc())
     ob("C02.d", "epsilon_closure:both-cases", seen == {"new", "known"}, "cases %s" % sorted(seen), ne.loc())
     its = [M.call_name(t) for bb, t in ne.calls(ADAPTERS)]
     ob("C02.d", "epsilon_closure:all-epsilon-transitions-followed", not its and any(re.search(r"NfaState::epsilon_transitions$", M.call_name(t)) for bb, t in ne.calls()), "adapters %s" % its, ne.loc())
